@@ -134,6 +134,9 @@ def wave8_rules(ctx):
     from share import relabel
     from rules.c12 import check_unescape
     obs += relabel(check_unescape(ctx), "C12.unescape", "C03.literal/unescape")
+    # wave 11: a conditional used as the condition of a branch selector `c?i:` is parenthesised (shared with C04.branch)
+    from rules.c04 import wave8_rules as c04_w8
+    obs += relabel(c04_w8(ctx), "C04.branch/condition-paren", "C03.prec/condition-paren")
     return obs
 
 
